@@ -3,7 +3,9 @@
 //@ verus-args --rlimit 100
 //@ config TARGET_CHUNK_SIZE MINIMUM_CHUNK_DIVISOR MAXIMUM_CHUNK_MULTIPLIER
 #![feature(allocator_api)]
+#![allow(non_snake_case, unused)]
 use vstd::prelude::*;
+use vstd::std_specs::bits::*;
 use std::sync::Arc;
 verus! {
 global size_of usize == 8;
@@ -158,6 +160,22 @@ pub proof fn lemma_cut_point(b0: Seq<u8>, d: Seq<u8>, mn: int, mx: int, mk: u64,
 }
 
 
+
+// ---- configuration: every value the start-up assertions of `Chunker::new` admit (R6) -------------------------------
+pub uninterp spec fn spec_TARGET_CHUNK_SIZE() -> usize;
+pub uninterp spec fn spec_MINIMUM_CHUNK_DIVISOR() -> usize;
+pub uninterp spec fn spec_MAXIMUM_CHUNK_MULTIPLIER() -> usize;
+#[verifier::external_body] pub fn TARGET_CHUNK_SIZE() -> (r: usize) ensures r == spec_TARGET_CHUNK_SIZE() { unimplemented!() }
+#[verifier::external_body] pub fn MINIMUM_CHUNK_DIVISOR() -> (r: usize) ensures r == spec_MINIMUM_CHUNK_DIVISOR() { unimplemented!() }
+#[verifier::external_body] pub fn MAXIMUM_CHUNK_MULTIPLIER() -> (r: usize) ensures r == spec_MAXIMUM_CHUNK_MULTIPLIER() { unimplemented!() }
+// configuration predicate: a zero divisor panics in `new`; the multiplier bound keeps `target * multiplier` inside usize
+pub open spec fn chunk_config_ok() -> bool {
+    1 <= spec_MINIMUM_CHUNK_DIVISOR() && 1 <= spec_MAXIMUM_CHUNK_MULTIPLIER() <= 0x4000_0000
+}
+pub uninterp spec fn spec_count_ones(x: usize) -> u32;
+pub assume_specification [usize::count_ones] (x: usize) -> (r: u32) ensures r == spec_count_ones(x);
+#[verifier::external_body] pub fn vx_abort() ensures false { panic!() }
+
 pub struct MerkleHash(pub [u64;4]);
 pub uninterp spec fn spec_data_hash(s: Seq<u8>) -> MerkleHash;
 #[verifier::external_body]
@@ -170,6 +188,8 @@ pub assume_specification<T, A: std::alloc::Allocator + Clone> [<Arc<[T], A> as F
 
 pub struct GearHasher { pub hash: u64 }
 impl GearHasher {
+    #[verifier::external_body]
+    pub fn default() -> (r: GearHasher) ensures r.hash == 0 { unimplemented!() }
     #[verifier::external_body]
     pub fn next_match(&mut self, buf: &[u8], mask: u64) -> (r: Option<usize>)
         ensures
@@ -194,15 +214,175 @@ impl GearHasher {
 pub open spec fn first_cut(c: Seq<u8>, mn: int, mx: int, mk: u64) -> bool {
     is_cut(c, mn, mx, mk) && no_cut(c.drop_last(), mn, mx, mk)
 }
+
+spec fn concat_chunks(s: Seq<Chunk>) -> Seq<u8> decreases s.len() {
+    if s.len() == 0 { Seq::<u8>::empty() } else { concat_chunks(s.drop_last()) + s.last().data@ }
+}
+// every chunk is a first_cut of the rule; if `last_is_remainder` the last one may instead be a cut-free final remainder
+spec fn chunks_ok(s: Seq<Chunk>, mn: int, mx: int, mk: u64, last_may_be_remainder: bool) -> bool {
+    forall|i: int| 0 <= i < s.len() ==> (first_cut(#[trigger] s[i].data@, mn, mx, mk)
+        || (last_may_be_remainder && i == s.len() - 1 && no_cut(s[i].data@, mn, mx, mk)))
+}
+
+spec fn datas(s: Seq<Chunk>) -> Seq<Seq<u8>> { Seq::new(s.len(), |i: int| s[i].data@) }
+proof fn lemma_concat_bridge(s: Seq<Chunk>)
+    ensures concat_chunks(s) == concat_front(datas(s))
+    decreases s.len()
+{
+    if s.len() == 0 {
+        assert(datas(s) =~= Seq::<Seq<u8>>::empty());
+    } else {
+        lemma_concat_bridge(s.drop_last());
+        assert(datas(s) =~= datas(s.drop_last()).push(s.last().data@));
+        lemma_concat_front_push(datas(s.drop_last()), s.last().data@);
+    }
+}
+// The statement of C04/C03 over the contracts: whatever the call partition, two runs over the same stream from an empty
+// buffer that each satisfy next_block's postcondition chain produce the same chunk data list and the same remainder.
+proof fn lemma_partition_independent(stream: Seq<u8>, l1: Seq<Chunk>, r1: Seq<u8>, l2: Seq<Chunk>, r2: Seq<u8>, mn: int, mx: int, mk: u64)
+    requires 0 <= mn < mx,
+        stream == concat_chunks(l1) + r1, chunks_ok(l1, mn, mx, mk, false), no_cut(r1, mn, mx, mk),
+        stream == concat_chunks(l2) + r2, chunks_ok(l2, mn, mx, mk, false), no_cut(r2, mn, mx, mk),
+    ensures datas(l1) == datas(l2), r1 == r2,
+{
+    lemma_concat_bridge(l1); lemma_concat_bridge(l2);
+    lemma_decomp_unique(stream, datas(l1), r1, datas(l2), r2, mn, mx, mk);
+}
+proof fn lemma_next_block_step(b0: Seq<u8>, pre: Seq<u8>, used: Seq<u8>, old_ret: Seq<Chunk>, old_buf: Seq<u8>, new_ret: Seq<Chunk>, new_buf: Seq<u8>, mn: int, mx: int, mk: u64)
+    requires
+        b0 + pre == concat_chunks(old_ret) + old_buf,
+        (new_ret == old_ret && new_buf == old_buf + used)
+          || (new_ret.len() == old_ret.len() + 1 && new_ret.drop_last() == old_ret && new_ret.last().data@ == old_buf + used && new_buf.len() == 0),
+    ensures
+        b0 + (pre + used) == concat_chunks(new_ret) + new_buf,
+{
+    assert(b0 + (pre + used) =~= (b0 + pre) + used);
+    if new_ret == old_ret {
+        assert((concat_chunks(old_ret) + old_buf) + used =~= concat_chunks(old_ret) + (old_buf + used));
+    } else {
+        assert((concat_chunks(old_ret) + old_buf) + used =~= concat_chunks(old_ret) + (old_buf + used));
+        assert(concat_chunks(new_ret) + new_buf =~= concat_chunks(new_ret));
+    }
+}
+
+// ---- partition independence (C04/C03): a stream has exactly one decomposition into first_cut chunks + cut-free remainder -----
+pub open spec fn concat_front(s: Seq<Seq<u8>>) -> Seq<u8> decreases s.len() {
+    if s.len() == 0 { Seq::<u8>::empty() } else { s[0] + concat_front(s.drop_first()) }
+}
+pub open spec fn decomp(stream: Seq<u8>, l: Seq<Seq<u8>>, r: Seq<u8>, mn: int, mx: int, mk: u64) -> bool {
+    &&& stream == concat_front(l) + r
+    &&& forall|i: int| 0 <= i < l.len() ==> first_cut(#[trigger] l[i], mn, mx, mk)
+    &&& no_cut(r, mn, mx, mk)
+}
+pub proof fn lemma_cut_nonempty(c: Seq<u8>, mn: int, mx: int, mk: u64)
+    requires is_cut(c, mn, mx, mk), 0 <= mn < mx,
+    ensures c.len() > 0,
+{ lemma_is_cut_unfold(c, mn, mx, mk); }
+
+// two first_cut chunks that are both prefixes of one stream are equal
+pub proof fn lemma_first_cut_unique(stream: Seq<u8>, a: Seq<u8>, b: Seq<u8>, mn: int, mx: int, mk: u64)
+    requires 0 <= mn < mx, first_cut(a, mn, mx, mk), first_cut(b, mn, mx, mk),
+        a.len() <= stream.len(), b.len() <= stream.len(),
+        a == stream.subrange(0, a.len() as int), b == stream.subrange(0, b.len() as int),
+    ensures a == b,
+{
+    lemma_cut_nonempty(a, mn, mx, mk); lemma_cut_nonempty(b, mn, mx, mk);
+    if a.len() < b.len() {
+        assert(b.drop_last().subrange(0, a.len() as int) =~= a);
+    } else if b.len() < a.len() {
+        assert(a.drop_last().subrange(0, b.len() as int) =~= b);
+    }
+}
+pub proof fn lemma_decomp_unique(stream: Seq<u8>, l1: Seq<Seq<u8>>, r1: Seq<u8>, l2: Seq<Seq<u8>>, r2: Seq<u8>, mn: int, mx: int, mk: u64)
+    requires 0 <= mn < mx, decomp(stream, l1, r1, mn, mx, mk), decomp(stream, l2, r2, mn, mx, mk),
+    ensures l1 == l2, r1 == r2,
+    decreases l1.len(),
+{
+    if l1.len() == 0 {
+        assert(concat_front(l1) + r1 =~= r1);
+        if l2.len() > 0 {
+            let c = l2[0];
+            lemma_cut_nonempty(c, mn, mx, mk);
+            assert(r1.subrange(0, c.len() as int) =~= c);
+            assert(false);
+        }
+        assert(concat_front(l2) + r2 =~= r2);
+        assert(l1 =~= l2);
+    } else if l2.len() == 0 {
+        assert(concat_front(l2) + r2 =~= r2);
+        let c = l1[0];
+        lemma_cut_nonempty(c, mn, mx, mk);
+        assert(r2.subrange(0, c.len() as int) =~= c);
+        assert(false);
+    } else {
+        let a = l1[0]; let b = l2[0];
+        assert(stream.subrange(0, a.len() as int) =~= a);
+        assert(stream.subrange(0, b.len() as int) =~= b);
+        lemma_first_cut_unique(stream, a, b, mn, mx, mk);
+        let rest = stream.subrange(a.len() as int, stream.len() as int);
+        assert(rest =~= concat_front(l1.drop_first()) + r1);
+        assert(rest =~= concat_front(l2.drop_first()) + r2);
+        assert forall|i: int| 0 <= i < l1.drop_first().len() implies first_cut(#[trigger] l1.drop_first()[i], mn, mx, mk) by { assert(l1.drop_first()[i] == l1[i + 1]); }
+        assert forall|i: int| 0 <= i < l2.drop_first().len() implies first_cut(#[trigger] l2.drop_first()[i], mn, mx, mk) by { assert(l2.drop_first()[i] == l2[i + 1]); }
+        lemma_decomp_unique(rest, l1.drop_first(), r1, l2.drop_first(), r2, mn, mx, mk);
+        assert(l1 =~= seq![a] + l1.drop_first());
+        assert(l2 =~= seq![b] + l2.drop_first());
+    }
+}
+// every non-final chunk is at least minimum - 64 bytes long and at most maximum
+pub proof fn lemma_first_cut_bounds(c: Seq<u8>, mn: int, mx: int, mk: u64)
+    requires 0 <= mn < mx, first_cut(c, mn, mx, mk),
+    ensures c.len() <= mx ==> true, c.len() >= mn - 64 || c.len() == mx, c.len() > 0,
+{ lemma_is_cut_unfold(c, mn, mx, mk); }
+pub proof fn lemma_concat_front_push(l: Seq<Seq<u8>>, x: Seq<u8>)
+    ensures concat_front(l.push(x)) == concat_front(l) + x
+    decreases l.len()
+{
+    if l.len() == 0 {
+        assert(l.push(x).drop_first() =~= l);
+        assert(l.push(x)[0] == x);
+        assert(concat_front(l) =~= Seq::<u8>::empty());
+        assert(concat_front(l.push(x)) == l.push(x)[0] + concat_front(l.push(x).drop_first()));
+        assert(concat_front(l.push(x)) =~= x + Seq::<u8>::empty());
+        assert(concat_front(l) + x =~= x);
+        assert(x + Seq::<u8>::empty() =~= x);
+    } else {
+        assert(l.push(x).drop_first() =~= l.drop_first().push(x));
+        lemma_concat_front_push(l.drop_first(), x);
+        assert(l[0] + (concat_front(l.drop_first()) + x) =~= (l[0] + concat_front(l.drop_first())) + x);
+    }
+}
 impl Chunker {
     spec fn wf(&self) -> bool {
         &&& self.cur_chunk_len == self.chunkbuf@.len()
         &&& self.cur_chunk_len < self.maximum_chunk
         &&& self.minimum_chunk < self.maximum_chunk
-        &&& self.maximum_chunk <= 0x2_0000_0000
+        &&& self.maximum_chunk <= 0x4000_0000_0000_0000
         &&& no_cut(self.chunkbuf@, self.minimum_chunk as int, self.maximum_chunk as int, self.mask)
         &&& self.hash.hash == hash_of(self.chunkbuf@, self.minimum_chunk as int)
     }
+
+//@ extract deduplication/src/chunking.rs in `impl Chunker` fn new
+//@ ret ret
+//@ subst `gearhash::Hasher::default()` => `GearHasher::default()` :: R11 stub type for the gearhash dependency
+//@ contract
+        requires chunk_config_ok(),
+        ensures
+            // (the three start-up `assert!`s abort otherwise)
+            /*@C04*/ spec_count_ones(target_chunk_size) == 1 && 64 < target_chunk_size < u32::MAX,
+            /*@C04,C15*/ ret.wf(),
+            /*@C04*/ ret.chunkbuf@.len() == 0,
+            /*@C04,C15*/ ret.minimum_chunk == target_chunk_size / spec_MINIMUM_CHUNK_DIVISOR(),
+            /*@C04,C15*/ ret.maximum_chunk == target_chunk_size * spec_MAXIMUM_CHUNK_MULTIPLIER(),
+            /*@C04*/ ret.mask == ((target_chunk_size - 1) as u64) << (u64_leading_zeros((target_chunk_size - 1) as u64) as u64),
+//@ before `let mask = mask <<`
+        proof { axiom_u64_leading_zeros(mask); }
+//@ before `let maximum_chunk =`
+        proof {
+            assert(target_chunk_size * spec_MAXIMUM_CHUNK_MULTIPLIER() <= 0x4000_0000_0000_0000) by (nonlinear_arith)
+                requires target_chunk_size < 0x1_0000_0000, spec_MAXIMUM_CHUNK_MULTIPLIER() <= 0x4000_0000;
+        }
+//@ end
 
 //@ extract deduplication/src/chunking.rs in `impl Chunker` fn next
 //@ ret ret
@@ -210,6 +390,7 @@ impl Chunker {
         requires old(self).wf(), data@.len() <= isize::MAX,
         ensures
             ret.1 <= data@.len(),
+            data@.len() > 0 ==> ret.1 > 0,
             final(self).wf(),
             final(self).minimum_chunk == old(self).minimum_chunk, final(self).maximum_chunk == old(self).maximum_chunk, final(self).mask == old(self).mask,
             match ret.0 {
@@ -262,6 +443,70 @@ impl Chunker {
                 proof { assert(self.chunkbuf@.subrange(0, 0) =~= self.chunkbuf@); }
 //@ before `(None, consume_len)`
                 proof { assert(data@.subrange(0, data@.len() as int) =~= data@); }
+//@ end
+
+//@ extract deduplication/src/chunking.rs in `impl Chunker` fn next_block
+//@ ret ret
+//@ contract
+        requires old(self).wf(), data@.len() <= isize::MAX,
+        ensures
+            final(self).wf(),
+            final(self).minimum_chunk == old(self).minimum_chunk, final(self).maximum_chunk == old(self).maximum_chunk, final(self).mask == old(self).mask,
+            /*@C04,C03*/ old(self).chunkbuf@ + data@ == concat_chunks(ret@) + final(self).chunkbuf@,
+            /*@C04,C03*/ chunks_ok(ret@, old(self).minimum_chunk as int, old(self).maximum_chunk as int, old(self).mask, is_final && final(self).chunkbuf@.len() == 0),
+            /*@C04,C15*/ forall|i: int| 0 <= i < ret@.len() ==> 0 < (#[trigger] ret@[i]).data@.len() <= old(self).maximum_chunk,
+            /*@C04*/ (is_final && data@.len() > 0) ==> final(self).chunkbuf@.len() == 0,
+            /*@C04,C03*/ forall|i: int| 0 <= i < ret@.len() ==> (#[trigger] ret@[i]).hash == spec_data_hash(ret@[i].data@),
+//@ after `let mut pos = 0;`
+        let ghost mn = self.minimum_chunk as int; let ghost mx = self.maximum_chunk as int; let ghost mk = self.mask;
+        let ghost b0 = self.chunkbuf@;
+        proof { assert(data@.subrange(0, 0) =~= Seq::<u8>::empty()); assert(b0 + Seq::<u8>::empty() =~= b0); assert(concat_chunks(ret@) =~= Seq::<u8>::empty());
+                assert(Seq::<u8>::empty() + b0 =~= b0); }
+//@ loop 1
+            invariant
+                self.wf(), self.minimum_chunk == mn, self.maximum_chunk == mx, self.mask == mk,
+                mn == old(self).minimum_chunk, mx == old(self).maximum_chunk, mk == old(self).mask, b0 == old(self).chunkbuf@,
+                data@.len() <= isize::MAX,
+                pos <= data@.len(),
+                b0 + data@.subrange(0, pos as int) == concat_chunks(ret@) + self.chunkbuf@,
+                chunks_ok(ret@, mn, mx, mk, is_final && pos == data@.len() && self.chunkbuf@.len() == 0 && pos > 0),
+                forall|i: int| 0 <= i < ret@.len() ==> 0 < (#[trigger] ret@[i]).data@.len() <= mx,
+                forall|i: int| 0 <= i < ret@.len() ==> (#[trigger] ret@[i]).hash == spec_data_hash(ret@[i].data@),
+                (is_final && pos == data@.len() && pos > 0) ==> self.chunkbuf@.len() == 0,
+                // every emitted chunk but a final remainder is a first_cut; a final remainder can only be the very last action
+                pos < data@.len() ==> chunks_ok(ret@, mn, mx, mk, false),
+            decreases data@.len() - pos,
+//@ before `return ret;`
+                proof { assert(data@.subrange(0, pos as int) =~= data@); }
+//@ before `let (maybe_chunk, bytes_consumed)`
+            let ghost old_buf = self.chunkbuf@; let ghost old_ret = ret@; let ghost pos0 = pos as int;
+//@ after `self.next(&data[pos..], is_final);`
+            let ghost mc = maybe_chunk;
+//@ before `pos += bytes_consumed;`
+            proof {
+                if mc.is_some() { assert(ret@.drop_last() =~= old_ret); }
+                let d = data@.subrange(pos0, data@.len() as int);
+                if mc.is_none() { assert(d.subrange(0, bytes_consumed as int) =~= d); }
+                assert(data@.subrange(0, pos0 + bytes_consumed) =~= data@.subrange(0, pos0) + d.subrange(0, bytes_consumed as int));
+                lemma_next_block_step(b0, data@.subrange(0, pos0), d.subrange(0, bytes_consumed as int), old_ret, old_buf, ret@, self.chunkbuf@, mn, mx, mk);
+                if pos0 + bytes_consumed == data@.len() { assert(d.subrange(0, bytes_consumed as int) =~= d); }
+            }
+//@ end
+
+//@ extract deduplication/src/chunking.rs in `impl Chunker` fn finish
+//@ ret ret
+//@ rules R14
+//@ contract
+        requires self.wf(),
+        ensures
+            match ret {
+                Some(c) => c.data@ == self.chunkbuf@ && c.data@.len() > 0 && c.hash == spec_data_hash(c.data@)
+                           && no_cut(c.data@, self.minimum_chunk as int, self.maximum_chunk as int, self.mask),
+                None => self.chunkbuf@.len() == 0,
+            },
+//@ body-start
+        let ghost b0 = self.chunkbuf@;
+        proof { assert(b0 + Seq::<u8>::empty() =~= b0); }
 //@ end
 }
 
